@@ -49,7 +49,14 @@ def bridged_exc(kind):
         return e
     if kind == 2:
         return concurrent.futures.CancelledError('a cancelled job asked for its result')
+    if kind == 4:
+        return Abort('giving up')
     return concurrent.futures.InvalidStateError('source')
+
+
+class Abort(BaseException):
+    """A failure that is not an Exception (a library's own abort signal; like KeyboardInterrupt, GeneratorExit):
+    `except Exception` does not see it, `finally` does."""
 
 
 class QuietBoom(Exception):
@@ -226,7 +233,7 @@ def gen_case(rng):
         case['falsy'] = True        # the source fails with an exception whose truth value is false
     elif fail is not None and rng.random() < 0.3:
         # ... or with one of the classes that futures bridging threads and loops replace by copies / other classes
-        case['exckind'] = rng.choice([1, 2, 3])
+        case['exckind'] = rng.choice([1, 2, 3, 4, 4])
     if kind in ('async:gen', 'async:objiter') and n >= 2 and fail is None and rng.random() < 0.3:
         # the consumer stops early: it takes k elements and closes the async iterator while the source still has
         # (blocking) steps to go
@@ -345,7 +352,7 @@ def run_case(case, seed, pct=0, choices=None):
                         finish(None)
                     except Hang:
                         raise
-                    except (Exception, asyncio.CancelledError) as e:
+                    except (Exception, asyncio.CancelledError, Abort) as e:
                         finish(e)
                     t.cancel()
                 try:
@@ -365,7 +372,7 @@ def run_case(case, seed, pct=0, choices=None):
                     finish(None)
                 except Hang:
                     raise
-                except (Exception, asyncio.CancelledError) as e:
+                except (Exception, asyncio.CancelledError, Abort) as e:
                     finish(e)
                 if own is not None:
                     # second round on the same loop (monitor only: the label trace describes the first round)
